@@ -229,6 +229,34 @@ func registerExtlib(ex *Executor) {
 		}
 		return ex.alloc(st, t, "bytes.Reader", r), cNext
 	}
+	// leaves of the sort.Slice / sort.SliceStable models (models.go): length of, and swap inside, a slice held in an interface
+	anySlice := func(ex *Executor, v Val) SliceV {
+		if i, ok := v.(IfaceV); ok {
+			v = i.V
+		}
+		s, ok := v.(SliceV)
+		if !ok {
+			ex.abort("sort.Slice over %T", v)
+		}
+		return s
+	}
+	I["@verifSliceLenAny"] = func(ex *Executor, st *State, cc *CallCtx, args []Val) (Val, ctl) {
+		return smt.IntC(int64(anySlice(ex, args[0]).Len)), cNext
+	}
+	I["@verifSliceSwapAny"] = func(ex *Executor, st *State, cc *CallCtx, args []Val) (Val, ctl) {
+		sl := anySlice(ex, args[0])
+		i, ok1 := args[1].(*smt.Term).Int64()
+		j, ok2 := args[2].(*smt.Term).Int64()
+		if !ok1 || !ok2 || sl.Arr == nil || int(i) >= sl.Len || int(j) >= sl.Len {
+			ex.abort("sort.Slice swap with symbolic or out-of-range indices")
+		}
+		arr := st.Heap[sl.Arr].(*ArrayV)
+		es := append([]Val(nil), arr.Elems...)
+		es[sl.Off+int(i)], es[sl.Off+int(j)] = es[sl.Off+int(j)], es[sl.Off+int(i)]
+		st.dirty = true
+		st.Heap[sl.Arr] = &ArrayV{es}
+		return nil, cNext
+	}
 	// (*bytes.Reader).Reset(b): the reader (possibly a zero-value struct field) now reads b from the start
 	I["(*bytes.Reader).Reset"] = func(ex *Executor, st *State, cc *CallCtx, args []Val) (Val, ctl) {
 		var r *ReaderV
